@@ -79,8 +79,10 @@ class Engine(ExprMixin, CallMixin, StmtMixin):
         hints = kw.pop("cover_hints", ())
         monitors = kw.pop("item_monitors", None)
         ghost_exit = kw.pop("ghost_exit", ())
+        log_events = kw.pop("log_events", None)
         c = Contract(key, **kw)
         c.ghost_exit = list(ghost_exit)
+        c.log_events = log_events
         c.item_monitors = monitors or {}
         c.uses = tuple(uses)
         c.cover_hints = list(hints)
